@@ -1,5 +1,6 @@
 import Ledger.Driver.Core
 import Ledger.Driver.Repl
+import Ledger.Driver.ReplM
 
 /-! `ldriver_repl`: correspondence driver for the Repl area (core-only). -/
-def main : IO Unit := Ledger.Driver.runDriver Ledger.Driver.Repl.handlers
+def main : IO Unit := Ledger.Driver.runDriver (Ledger.Driver.Repl.handlers ++ Ledger.Driver.ReplM.handlers)
